@@ -30,7 +30,9 @@ impl Paths {
         let filename = "kern_".to_string()
             + &location
                 .iter()
-                .map(|(tag, pos)| format!("{tag}_{:.2}", pos.to_f64()))
+                // shortest round-tripping representation: distinct locations must
+                // never share a file, however close together they are
+                .map(|(tag, pos)| format!("{tag}_{}", pos.to_f64()))
                 .collect::<Vec<_>>()
                 .join("_")
             + ".yml";
